@@ -277,7 +277,9 @@ impl S3 for FileSystem {
         let path = self.get_object_path(&input.bucket, &input.key)?;
 
         if !path.exists() {
-            return Err(s3_error!(NoSuchBucket));
+            // a missing key in an existing bucket is not a missing bucket
+            let bucket_path = self.get_bucket_path(&input.bucket)?;
+            return Err(if bucket_path.exists() { s3_error!(NoSuchKey) } else { s3_error!(NoSuchBucket) });
         }
 
         let file_metadata = try_!(fs::metadata(path).await);
